@@ -167,6 +167,12 @@ func HyperTree.QueryMembership
 func HyperTree.Close
   modifies everything
 
+// C09 bookkeeping: a rebuild re-derives the cache from the store as it is now
+// (that the rebuilt cache equals the cache of an uninterrupted run is C08's subject)
+func HyperTree.RebuildCache
+  modifies everything, rebuildSeenLoads
+  assumes rebuildSeenLoads == snapshotLoads
+
 // ---- proofs --------------------------------------------------------------------
 
 func AuditPath.Get
